@@ -27,6 +27,7 @@ type RunConfig struct {
 	Outsiders  []int           `json:"outsiders"`
 
 	StorageOrder int `json:"storage_order"`
+	RefTimeMode  int `json:"ref_time_mode"` // reference times of blocks: 0 distinct per height, 1 all equal, 2 pairs of consecutive heights share one
 	MaxSteps     int `json:"max_steps"`
 	MaxLatencyMs int `json:"max_latency_ms"`
 	Window       int `json:"window"`
